@@ -2560,7 +2560,14 @@ void abbreviation_from_bracket(const char * source, scratch_pad * scratch, token
 
 
 void read_table_column_alignments(const char * source, token * table, scratch_pad * scratch) {
-	token * walker = table->child->child;
+	token * walker = table->child;
+
+	// A table that starts a list item has the list marker as its first child
+	if (walker && (walker->type == MARKER_LIST_BULLET || walker->type == MARKER_LIST_ENUMERATOR)) {
+		walker = walker->next;
+	}
+
+	walker = walker ? walker->child : NULL;
 
 	scratch->table_alignment[0] = '\0';
 	scratch->table_column_count = 0;
